@@ -15,7 +15,7 @@ from .. import seams
 from ..compile import World
 from ..ctx import CTX, RunTooBig
 from ..history import History, canon, canon_outcome, digest
-from ..rng import Streams, chance, pick, weighted
+from ..rng import Streams, chance, pick, weighted, steps
 from ..sim import apply_op, form_of, build_sim, locations, readable, stack_state, watch_calls
 from ..world import gen_inputs, gen_request, gen_situation, gen_value, gen_world, wide_knob
 from . import Result
@@ -117,7 +117,7 @@ def generate(seed: int, tier: str) -> dict:
     # Histories that change inputs are therefore compared under cache-preserving
     # configurations only (as spiral worlds are).
     changes_inputs = chance(orr, 0.3)
-    for _ in range(orr.randint(4, 8 if tier == "quick" else 12)):
+    for _ in range(steps(orr, 4, 8 if tier == "quick" else 12)):
         r0 = orr.random() if changes_inputs else 1.0
         if inputs and r0 < 0.14:
             # an input corrected later: same variable and period, another value - under
@@ -164,6 +164,23 @@ def generate(seed: int, tier: str) -> dict:
             at = sorted(orr.randrange(len(ops) + 1) for _ in range(3))
             for k, op in zip(reversed(at), reversed(trio)):
                 ops.insert(k, op)
+    if changes_inputs and chance(orr, 0.12):
+        # a long run of revisions of one monthly variable: each month in turn is withdrawn
+        # and given again (a survey corrected month by month), then read back
+        cands = [v for v in world["variables"] if v["unit"] == "month" and not v["formulas"] and not v.get("set_input") and not v.get("end")]
+        if cands:
+            v = pick(orr, cands)
+            months = [f"{y}-{m:02d}" for y in (2017, 2018) for m in range(1, 13)][: orr.randint(17, 22)]
+            storm = []
+            for per in months:
+                if not any(i[0] == v["name"] and i[1] == per for i in inputs):
+                    inputs.append([v["name"], per, [gen_value(orr, v, world) for _ in range(orr.randint(1, 3))]])
+            for per in months:
+                storm.append({"do": ["delete_arrays", v["name"], per]})
+                storm.append({"do": ["set_input", v["name"], per, [gen_value(orr, v, world) for _ in range(orr.randint(1, 3))]]})
+            storm += [{"do": ["get_array", v["name"], per]} for per in months[:4]]
+            k = orr.randrange(len(ops) + 1)
+            ops[k:k] = storm
     straddlers = [i for i in inputs if len({e for e in enclosing(i[1]) if len(e) == 4}) == 2]
     if changes_inputs and straddlers and chance(orr, 0.7):
         # an input on a week that belongs to two calendar years: deleting either year
